@@ -26,6 +26,9 @@ def run(ctx):
             C.choose(rng, p, C.ROW_KINDS)
         n = rng.randint(8, 14) * p["window_size"]
         xs = D.bursty_stream(rng, n, rng.randint(1, 3), p["window_size"])
+        if i % 8 in (2, 6):    # the stream opens with a few all-zero samples (an idle sensor): they are samples like any other
+            dd = len(xs[0])
+            xs = [[0] * dd for _ in range(rng.randint(1, 4))] + xs
         if i % 8 == 5:         # byte-valued data handed over in narrow unsigned dtypes
             xs = D.byte_stream(rng, n, rng.randint(1, 3), p["window_size"])
             p["feed"] = {"seed": rng.randrange(10 ** 6), "kinds": [rng.choice(["uint8array", "uint16array"])]}
